@@ -29,6 +29,8 @@ import os
 from lib import core
 from lib.core import f2bits, bits2f
 
+# harness / driver processes run at a time (VERIF_WORKERS caps it on a shared, loaded machine; default: all cores, at most 16)
+WORKERS = max(1, min(16, int(os.environ.get("VERIF_WORKERS", "0")) or (os.cpu_count() or 4)))
 DRIVER = "drv_soln"
 LEAN_TARGETS = ["OmplModel.Props.C04", DRIVER, "drv_rrtstar"]
 INF = float("inf")
@@ -872,8 +874,8 @@ def make_jobs(ck, rng, params=None):
                 # the anytime pattern of tests/geometric/2d/*_optimize: many short slices of
                 # `clearSolutionPaths(); solve()`, two goal states, the better one behind a narrow window (env 6),
                 # an objective without admissible heuristic (unit state-cost integral: nothing is pruned)
-                job(planner, "sci", 0, "def", 6, 2, r.range(1, 10 ** 6), 500, 26 if ck.tier == "quick" else 80, f2bits(0.01), 1)
-                job(planner, "len", 0, "def", 6, 2, r.range(1, 10 ** 6), 500, 22 if ck.tier == "quick" else 25, f2bits(0.01), 1)
+                job(planner, "sci", 0, "def", 6, 2, r.range(1, 10 ** 6), 500, 20 if ck.tier == "quick" else 80, f2bits(0.01), 1)
+                job(planner, "len", 0, "def", 6, 2, r.range(1, 10 ** 6), 500, 16 if ck.tier == "quick" else 25, f2bits(0.01), 1)
         for planner, evals in EXTRA_PLANNERS.items():
             r = rng.fork("xjob-%s-%d" % (planner, rep))
             job(planner, "len", 0, "def", 7, 2, r.range(1, 10 ** 6), evals, 3, g_small, hist="cs")
@@ -929,7 +931,7 @@ def make_jobs(ck, rng, params=None):
             if planner in ("RRTstar", "InformedRRTstar", "SORRTstar"):
                 # the classic choose-parent loop with a symmetric objective that is not the path length, on a lattice: finding F340
                 # (RRTstar.cpp caches motion->incCost for nmotion after a tied neighbour may already have become the parent)
-                for _ in range(3 if ck.tier == "quick" else 8):
+                for _ in range(1 if ck.tier == "quick" else 8):
                     job(planner, r.choice(["sci", "sci", "multi"]), r.range(1, 2), "def", r.choice([0, 1, 4]), 2, r.range(1, 10 ** 6), 800, 2, f2bits(0.07),
                         hist="c", cfg="delay_collision_checking=0,range=2,grid=%d" % r.choice([8, 16]), tag="classic-lattice-symmetric")
             if planner in FROMDATA:
@@ -971,7 +973,7 @@ def exec_job(ck, hbin, job):
 
 def judge_runs(ck, hbin, jobs):
     results = []
-    with concurrent.futures.ThreadPoolExecutor(max_workers=min(14, (os.cpu_count() or 4))) as ex:
+    with concurrent.futures.ThreadPoolExecutor(max_workers=WORKERS) as ex:
         for res in ex.map(lambda j: exec_job(ck, hbin, j), jobs):
             results.append(res)
     import collections
@@ -1033,6 +1035,9 @@ def judge_runs(ck, hbin, jobs):
             rec = {"engine": "soln", "part": "C", "kind": kind, "planner": job["planner"], "objective": job["obj"], "what": what}
             if job.get("tag"):
                 rec["class"] = job["tag"]        # the input class of the run (non-default parameters, re-use history, lattice samples)
+            if job.get("tag") == "classic-lattice-symmetric" and classic_loop_is_old():
+                rec["what"] = what + "  [this tree has the classic choose-parent loop as coded before fix e1b5ec649: the stale incCost " \
+                                     "cached for nmotion, F340 / Props rrtstar_classic_stale_inc_fails]"
             new = ck.report(rec, script=["solnrun", job_line(job)], expected=None, observed=out[:60], engine="soln")
             if new:
                 per_kind[kind] += 1            # known findings do not use up the budget
@@ -1113,7 +1118,7 @@ def oracle_fmt(line_job, out):
 
 
 def judge_fmt(ck, hbin, jobs):
-    with concurrent.futures.ThreadPoolExecutor(max_workers=min(8, (os.cpu_count() or 4))) as ex:
+    with concurrent.futures.ThreadPoolExecutor(max_workers=WORKERS) as ex:
         results = list(ex.map(lambda j: (j, ck.run_bin(hbin, ["solnrun", j], timeout=300, env=RUN_ENV)), jobs))
     nrep = {}
     for j, (out, rc, err) in results:
@@ -1202,10 +1207,31 @@ def make_rrt_jobs(ck, rng):
     return jobs
 
 
+_CLASSIC_OLD = None
+
+
+def classic_loop_is_old():
+    """which classic choose-parent loop does the tree UNDER TEST have?  Read off its source: before fix e1b5ec649 (F340) the
+    branch `nbh[i] == nmotion` reads `incCosts[i] = motion->incCost;`, since then `incCosts[i] = nmotionIncCost;`.  The model
+    follows (`dcc=0old` selects Space.classicOld), so a tree without the fix is compared with the loop it really has and its
+    defect is reported by the oracles (corpus/C04/f340-classic-lattice.txt is a deterministic failing input for it)."""
+    global _CLASSIC_OLD
+    if _CLASSIC_OLD is None:
+        try:
+            src = open(os.path.join(core.REPO, "src", "ompl", "geometric", "planners", "rrt", "src", "RRTstar.cpp")).read()
+        except OSError:
+            src = ""
+        compact = "".join(src.split())
+        _CLASSIC_OLD = "incCosts[i]=motion->incCost;" in compact
+    return _CLASSIC_OLD
+
+
 def exec_rrt(ck, hbin, job):
     out, rc, err = ck.run_bin(hbin, ["rrtstarrun", rrt_line(job)], timeout=300, env=RUN_ENV)
     out = out or []
     script = [l[2:] for l in out if l.startswith("S ")]
+    if script and script[0].endswith(" dcc=0") and classic_loop_is_old():
+        script[0] += "old"
     impl = [l[2:] for l in out if l.startswith("R ")]
     info = [l[2:] for l in out if l.startswith("I ")]
     model = []
@@ -1304,7 +1330,7 @@ def oracle_rrt(job, script, impl):
 
 
 def judge_rrt(ck, hbin, jobs):
-    with concurrent.futures.ThreadPoolExecutor(max_workers=min(12, (os.cpu_count() or 4))) as ex:
+    with concurrent.futures.ThreadPoolExecutor(max_workers=WORKERS) as ex:
         results = list(ex.map(lambda j: exec_rrt(ck, hbin, j), jobs))
     nrep = 0
     for job, script, impl, model, info, rc, err in results:
@@ -1457,7 +1483,7 @@ def run(ck):
     work = [(gen_A(ck.rng.fork("A%d" % i), False), "A-homogeneous") for i in range(nA)]
     work += [(gen_A(ck.rng.fork("M%d" % i), True), "A-mixed") for i in range(nM)]
     work += [(gen_B(ck.rng.fork("B%d" % i), 60), "B-paths") for i in range(nB)]
-    with concurrent.futures.ThreadPoolExecutor(max_workers=min(12, (os.cpu_count() or 4))) as ex:
+    with concurrent.futures.ThreadPoolExecutor(max_workers=WORKERS) as ex:
         pres = list(ex.map(lambda w: run_AB(ck, hbin, w[0]), work))
     for (script, tag), pre in zip(work, pres):
         if bad >= 3:
@@ -1482,6 +1508,7 @@ def run(ck):
     judge_rrt(ck, hrrt, rjobs)
     ck.extra_cov["rrtstar_lockstep_runs"] = len(rjobs)
     ck.extra_cov["planner_runs"] = len(jobs)
+    ck.extra_cov["rrtstar_classic_loop_variant"] = "pre-fix (incCosts[i] = motion->incCost)" if classic_loop_is_old() else "current (nmotionIncCost)"
     ck.extra_cov["planners"] = sorted(PLANNERS) + sorted(EXTRA_PLANNERS)
     return 0
 
